@@ -35,6 +35,8 @@ impl<'bytes> TokenStream<'bytes> {
 
     /// Read the next token from the stream
     pub fn next(&mut self, inside_include: bool) -> Result<PreprocessToken, LexerError> {
+        #[cfg(feature = "verif-hooks")]
+        rssl_text::verif::tick(1);
         if self.add_trailing_endline && self.current_offset == self.input_bytes.len() {
             assert!(!self.last_was_endline);
             self.last_was_endline = true;
@@ -1092,6 +1094,8 @@ fn test_whitespace() {
 
 /// Peek at what token is coming next unless there is whitespace
 fn lookahead_token(input: &[u8]) -> LexResult<'_, Option<Token>> {
+    #[cfg(feature = "verif-hooks")]
+    rssl_text::verif::tick(2);
     match token_intermediate(input, false) {
         Ok((_, o)) => Ok((input, Some(o))),
         Err(_) => Ok((input, None)),
